@@ -27,6 +27,8 @@ type plan struct {
 	Methods   []byte   // raw SOCKS5 client: the METHODS list
 	WantPos   int      // position of the server's method in Methods, -1 = absent
 	Pushy     bool     // raw SOCKS5 client: send the request even after a refusal
+	Retries   []cred   // raw SOCKS5 client, pushy: further RFC 1929 messages sent after a refused one
+	Storm     int      // raw HTTP client: number of consecutive refused attempts on the connection (0 = ordinary case)
 	EarlyData int      // raw SOCKS5 client: initial payload sent behind the request before the reply (1 same write, 2 own write)
 	Cancel    string   // repo clients, CONNECT: when the dial context is cancelled: "" never, "before", "w0".."w2" (during the client's k-th write), "after" (only after DialStream returned)
 	Cmd       byte
@@ -236,6 +238,70 @@ func genPresented(rt *rapid.T, users []cred, http bool) (cred, string) {
 	return c, class
 }
 
+var stormSizes = []int{1, 2, 5, 6, 7, 8, 9, 10, 11, 12, 16, 25, 40}
+
+// genStorm fills p.Pres with k consecutive attempts that have to be refused (missing field, wrong
+// password, unknown user, malformed token), optionally followed by one correct attempt.
+func genStorm(rt *rapid.T, p *plan) {
+	k := rapid.SampledFrom(stormSizes).Draw(rt, "storm-k")
+	seed := rapid.Uint64().Draw(rt, "storm-seed")
+	mix := rapid.IntRange(0, 4).Draw(rt, "storm-mix") // 0: mixed, 1..4: one kind only
+	valid := map[string]bool{}
+	for _, u := range p.Users {
+		valid[basicToken(u)] = true
+	}
+	pr := prng(seed)
+	p.Storm = k
+	for i := 0; i < k; i++ {
+		kind := mix
+		if mix == 0 {
+			kind = 1 + int(pr.next()%4)
+		}
+		var (
+			c     cred
+			class string
+		)
+		switch {
+		case kind == 1:
+			c, class = cred{None: true}, "none"
+		case kind == 2 && len(p.Users) > 0:
+			u := p.Users[int(pr.next()%uint64(len(p.Users)))]
+			c, class = cred{U: u.U, P: blob(1+int(pr.next()%12), pr.next(), alphaPrint)}, "fresh-password"
+		case kind == 4:
+			var tok string
+			switch v := pr.next() % 6; {
+			case v == 0:
+				tok = "%%%" + blob(1+int(pr.next()%20), pr.next(), alphaHTTPx)
+			case v == 1 && len(p.Users) > 0: // a valid token, truncated
+				t := basicToken(p.Users[0])
+				tok = t[:len(t)-1]
+			case v == 2 && len(p.Users) > 0: // a valid token with extra padding
+				tok = basicToken(p.Users[0]) + "="
+			case v == 3: // well-formed base64 of something without a colon
+				tok = basicToken(cred{U: "nocolon"})[:8]
+			case v == 4:
+				tok = "" // scheme only
+			default:
+				tok = blob(4*(1+int(pr.next()%8)), pr.next(), alphaHTTP[:62]) // base64 alphabet, random content
+			}
+			if valid[tok] {
+				tok = "!" + tok
+			}
+			c, class = cred{Bad: true, Token: tok}, "malformed"
+		default:
+			c, class = cred{U: noColon(blob(1+int(pr.next()%12), pr.next(), alphaPrint)), P: blob(1+int(pr.next()%12), pr.next(), alphaPrint)}, "fresh"
+		}
+		if inTable(p.Users, c) {
+			c, class = cred{None: true}, "none"
+		}
+		p.Pres, p.CredClass = append(p.Pres, c), append(p.CredClass, class)
+	}
+	if len(p.Users) > 0 && rapid.IntRange(0, 2).Draw(rt, "storm-then-correct") > 0 {
+		u := p.Users[rapid.IntRange(0, len(p.Users)-1).Draw(rt, "userpick")]
+		p.Pres, p.CredClass = append(p.Pres, u), append(p.CredClass, "exact")
+	}
+}
+
 func genTarget(rt *rapid.T, proto string) target {
 	var t target
 	ports := []uint16{0, 1, 53, 80, 443, 65535}
@@ -415,6 +481,8 @@ func genPlanOf(rt *rapid.T, protos []string) plan {
 			} else {
 				p.Pres, p.CredClass = []cred{{None: true}}, []string{"none"}
 			}
+		} else if http && p.SrvAuth && rapid.IntRange(0, 3).Draw(rt, "storm-mode") == 0 {
+			genStorm(rt, &p)
 		} else {
 			attempts := 1
 			if http {
@@ -462,6 +530,16 @@ func genPlanOf(rt *rapid.T, protos []string) plan {
 			p.Methods[p.WantPos] = want
 		}
 		p.Pushy = rapid.IntRange(0, 2).Draw(rt, "pushy") == 0
+		if p.Pushy && p.SrvAuth && rapid.Bool().Draw(rt, "s5-retry") {
+			n := rapid.SampledFrom([]int{1, 2, 9, 12}).Draw(rt, "s5-retries")
+			seed := rapid.Uint64().Draw(rt, "s5-retry-seed")
+			for i := 0; i < n; i++ {
+				p.Retries = append(p.Retries, cred{U: blob(1+i%7, seed+uint64(i), alphaHost[:36]), P: blob(1+i%5, seed^uint64(i), alphaHost[:36])})
+			}
+			if len(p.Users) > 0 { // the last retry is a correct one: still too late
+				p.Retries[n-1] = p.Users[int(seed%uint64(len(p.Users)))]
+			}
+		}
 		if rapid.IntRange(0, 2).Draw(rt, "early-mode") == 0 {
 			p.EarlyData = rapid.IntRange(1, 2).Draw(rt, "early")
 		}
